@@ -77,6 +77,16 @@ func genC12(g *G, n int, out io.Writer) {
 		// links heavy graph so that nested paths reach nodes
 		c.Graph = g.graph(3+g.n(5), 0.7)
 		prof := ProfileSpec{Name: fmt.Sprintf("c12_%d", i), Atoms: c.Atoms, Paths: c.Paths, Validations: c.Validations}
+		if i%5 == 2 {
+			// a constraint over a vocabulary whose namespace has no scheme: its trace entries name that path like any other
+			sl := SchemelessNS + g.pick([]string{"owner", "part_2", "a-b"})
+			c.Atoms = append(c.Atoms, Atom{Kind: "minCount", Path: Path{P: &sl}, Arg: i64p(1)})
+			k := g.n(len(c.Validations))
+			old := c.Validations[k].Rule
+			c.Validations[k].Rule = Rule{And: []Rule{old, {Atom: ip(len(c.Atoms) - 1)}}}
+			prof.Atoms, prof.Validations = c.Atoms, c.Validations
+			prof.Prefixes = map[string]string{"sl": SchemelessNS}
+		}
 		c.Profile = prof.Render()
 		c.Data = c.Graph.RenderFlat()
 		// source maps for some, all or none of the nodes: results, traces and sub-results then carry location nodes
